@@ -67,7 +67,28 @@ enum Outcome {
 }
 
 /// Drive one driver: decide, program, decode.
-fn drive<RK: RadioKind>(rk: &mut RK, bus: &Bus, sfi: usize, bwi: usize, cri: usize, freq: u32, decode: fn(&Chip) -> Option<bool>, pkt: (u16, bool, u8, bool, bool)) -> Outcome {
+fn drive<RK: RadioKind>(rk: &mut RK, bus: &Bus, sfi: usize, bwi: usize, cri: usize, freq: u32, decode: fn(&Chip) -> Option<bool>, pkt: (u16, bool, u8, bool, bool), prior: Option<(usize, usize)>) -> Outcome {
+    // an earlier life of the same driver: another rate was programmed, then the chip was reset and
+    // the driver re-initialised (what LoRa::init() does); nothing of it may survive in the driver
+    if let Some((psf, pbw)) = prior {
+        let _ = trap(|| {
+            if let Ok(mp) = rk.create_modulation_params(SFS[psf], BWS[pbw], CRS[0], freq) {
+                let _ = block_on(rk.set_modulation_params(&mp));
+            }
+            {
+                // power-on register values as far as this check looks at them: LDRO bits clear
+                let mut c = bus.chip();
+                if c.family == Family::Sx127x {
+                    let ver = c.regs[SX127X_REG_VERSION as usize];
+                    c.regs = [0u8; 128];
+                    c.regs[SX127X_REG_VERSION as usize] = ver;
+                }
+                c.clear_decoded();
+            }
+            let _ = block_on(rk.reset(&mut NoDelay));
+            let _ = block_on(rk.init_lora(0x3444));
+        });
+    }
     let r = trap(|| rk.create_modulation_params(SFS[sfi], BWS[bwi], CRS[cri], freq));
     let mp = match r {
         Err(t) => return Outcome::Panic(t),
@@ -200,6 +221,11 @@ impl Monitor for C15 {
             for cri in 0..ncr {
                 for &freq in FREQS[..nfreq].iter() {
                     let pkt = (rng.range(6, 20) as u16, rng.bool(), rng.range(1, 256) as u8, rng.bool(), rng.bool());
+                    // half of the runs: the driver had an earlier life with another cell programmed
+                    let prior = if rng.bool() { Some((rng.below(8) as usize, rng.below(10) as usize)) } else { None };
+                    if prior.is_some() {
+                        col.event("after_reinit_runs");
+                    }
                     let out = if imp == 0 {
                         match trap(|| BaseBandModulationParams::new(SFS[sfi], BWS[bwi], CRS[cri]).ldro) {
                             Ok(l) => Outcome::Decided(l as u8, None, None, None),
@@ -210,31 +236,31 @@ impl Monitor for C15 {
                             1 => {
                                 let (mut rk, bus) = new_sx1261();
                                 randomise_regs(&bus, rng);
-                                drive(&mut rk, &bus, sfi, bwi, cri, freq, dec_sx126x, pkt)
+                                drive(&mut rk, &bus, sfi, bwi, cri, freq, dec_sx126x, pkt, prior)
                             }
                             2 => {
                                 let (mut rk, bus) = new_sx1262();
                                 randomise_regs(&bus, rng);
-                                drive(&mut rk, &bus, sfi, bwi, cri, freq, dec_sx126x, pkt)
+                                drive(&mut rk, &bus, sfi, bwi, cri, freq, dec_sx126x, pkt, prior)
                             }
                             3 => {
                                 let (mut rk, bus) = new_stm32wl(true);
                                 randomise_regs(&bus, rng);
-                                drive(&mut rk, &bus, sfi, bwi, cri, freq, dec_sx126x, pkt)
+                                drive(&mut rk, &bus, sfi, bwi, cri, freq, dec_sx126x, pkt, prior)
                             }
                             4 => {
                                 let (mut rk, bus) = new_sx1272(false);
                                 randomise_regs(&bus, rng);
-                                drive(&mut rk, &bus, sfi, bwi, cri, freq, dec_sx1272, pkt)
+                                drive(&mut rk, &bus, sfi, bwi, cri, freq, dec_sx1272, pkt, prior)
                             }
                             5 => {
                                 let (mut rk, bus) = new_sx1276(false);
                                 randomise_regs(&bus, rng);
-                                drive(&mut rk, &bus, sfi, bwi, cri, freq, dec_sx1276, pkt)
+                                drive(&mut rk, &bus, sfi, bwi, cri, freq, dec_sx1276, pkt, prior)
                             }
                             _ => {
                                 let (mut rk, bus) = new_lr1110(lora_phy::lr1110::PaSelection::Lp);
-                                drive(&mut rk, &bus, sfi, bwi, cri, freq, dec_lr11xx, pkt)
+                                drive(&mut rk, &bus, sfi, bwi, cri, freq, dec_lr11xx, pkt, None)
                             }
                         }
                     };
